@@ -92,6 +92,7 @@ struct Hub
     bool shutdown_seen = false;
     int inits = 0;
     const char* lifecycle_prop = "C08";
+    const char* context = ""; // appended to the discriminator of life-cycle failures (e.g. "@configure-while-running")
     void reset();
 };
 
